@@ -50,6 +50,31 @@ def cond_family(rng):
             ['roots'] + roots]
 
 
+def revert_family(rng):
+    """a condition that holds when awaited and is reverted in the same time step before the waiter's
+    turn; comparisons of two tracked values where only the right-hand side changes"""
+    roots = []
+    t = rng.choice([0, F(1, 2), 1])
+    k = rng.random()
+    if k < 0.5:
+        roots.append(['prog', ['sleep', t], ['set', 0, True]] + [['sleep', 0]] * rng.randint(0, 2))
+        for i in range(rng.randint(1, 3)):
+            c = rng.choice([['flag', 0], ['any', ['flag', 0], ['flag', 1]], ['inv', ['inv', ['flag', 0]]]])
+            roots.append(['prog', ['sleep', t]] + [['sleep', 0]] * rng.randint(0, 3) + [['await', c], ['log', 100 + i]])
+        roots.append(['prog', ['sleep', t]] + [['sleep', 0]] * rng.randint(0, 4) + [['set', 0, False], ['sleep', 2], ['set', 0, True]])
+    else:
+        op = rng.choice([4, 5, 1, 0, 2])
+        for i in range(rng.randint(1, 3)):
+            roots.append(['prog', ['await', ['tracked2', 0, op, 1]], ['log', 100 + i]])
+        changes = [['sleep', 1], [rng.choice(['settracked', 'addtracked']), 1, rng.randint(-6, 6)], ['sleep', 1],
+                   ['settracked', 1, rng.randint(-6, 6)]]
+        if rng.random() < 0.4:      # (otherwise only the right-hand operand ever changes)
+            changes += [['sleep', 1], ['settracked', 0, rng.randint(-6, 6)]]
+        roots.append(['prog'] + changes)
+    rng.shuffle(roots)
+    return ['scenario', ['debug', 1], ['start', 0], ['flags', 2], ['locks', 0], ['tracked', 3, 5], ['roots'] + roots]
+
+
 #: known finding F8: a connective nested in a connective loses wake-ups
 F8_PROBE = ['scenario', ['debug', 1], ['start', 0], ['flags', 3], ['locks', 0],
             ['roots', ['prog', ['await', ['all', ['any', ['flag', 0], ['flag', 1]], ['flag', 2]]], ['log', 1]],
@@ -63,7 +88,7 @@ def nontrivial(impl):
     return sum(1 for e in impl['events'] if ':awaited:' in e or ':alg:' in e) >= 2
 
 
-SOURCES = [scopesuite.scope_tree, scopesuite.valid_scenario, cond_family]
+SOURCES = [scopesuite.scope_tree, scopesuite.valid_scenario, cond_family, revert_family]
 
 
 def run(tier, seed, drv):
